@@ -325,7 +325,7 @@ func extractCfg(file *ast.File, f *facts) (clauseHash string) {
 		return strings.Contains(t, "nleft") || strings.Contains(t, "nright") || strings.Contains(t, "len(n.child)")
 	}
 	f.set("shortcutGuardsSingle", guardBefore || (guards(callArm) && guards(litArm)))
-	// `dest = <-c`: until 177a151 an arm redirected the receive node to the destination's slot
+	// `dest = <-c`: until 212dc2e an arm redirected the receive node to the destination's slot
 	f.set("recvAssignsValue", recvArm == nil)
 	if recvArm != nil && !redirects(recvArm) {
 		f.miss("cfg.go: `src.action == aRecv` arm of the assignment optimisation without the redirection shape")
@@ -369,7 +369,7 @@ func extractCfg(file *ast.File, f *facts) (clauseHash string) {
 }
 
 // extractRecvUnary: the twin of the receive shortcut in the post-order of unaryExpr — a unary operation that is the single
-// source of an assignment stores straight into the destination; since 177a151 a receive is excluded.
+// source of an assignment stores straight into the destination; since 212dc2e a receive is excluded.
 func extractRecvUnary(cfg *ast.File, f *facts) {
 	n, excl := 0, 0
 	ast.Inspect(cfg, func(x ast.Node) bool {
@@ -397,7 +397,7 @@ func extractRecvUnary(cfg *ast.File, f *facts) {
 	}
 }
 
-// extractAssert: the destinations of the two-value type assertion and what a failed assertion stores (2fe0a18).
+// extractAssert: the destinations of the two-value type assertion and what a failed assertion stores (daee744).
 func extractAssert(run *ast.File, f *facts) {
 	fd := common.FindFunc(run, "", "typeAssert")
 	if fd == nil {
@@ -712,7 +712,7 @@ func main() {
 			f.miss("func genValueRangeArray")
 		}
 		if fd := common.FindFunc(run, "", "_range"); fd != nil {
-			// since 9284c57 genValueRangeArray takes a second argument (key only: a nil pointer to an array is not dereferenced)
+			// since bb375fd genValueRangeArray takes a second argument (key only: a nil pointer to an array is not dereferenced)
 			viaRange := contains(fd, "value = genValueRangeArray(an)") ||
 				(contains(fd, "value = genValueRangeArray(an, isBlank(n.child[1]))") && contains(fd, "value = genValueRangeArray(an, true)"))
 			if !viaRange || !contains(fd, "f.data[index2] = value(f)") {
